@@ -19,7 +19,7 @@ FNS = ('e_fresh', 's_fresh', 'positive', 'negative')
 
 def pool_for(k):
     P = universe.CONCRETE_POOL
-    return P[:12] if k <= 1 else P[:8] if k == 2 else P[:5]
+    return P[:13] if k <= 1 else P[:9] if k == 2 else P[:5]
 
 
 def confirm(fn, x, inst) -> bool:
@@ -158,7 +158,7 @@ def main(argv=None) -> int:
     common.build_harness()
     agg: dict = {}
     n = common.ncpu() * 4
-    mt = universe.meta(5 if thorough else 4)
+    mt = universe.meta(6 if thorough else 5, use_app=not thorough) if thorough else universe.meta(5)
     merge(chk, par.pmap(rust_chunk, par.chunks(mt, n)), 'rust_', agg)
     size = 4
     from . import bridge
